@@ -71,6 +71,20 @@ def _relocated(crate, vetted, s, cfgname):
     return None
 
 
+def _same_condition(entry, s, cfgname):
+    """the assert's condition is written differently but denotes the same condition as the vetted one (piecewise-linear
+    parts proved equal case by case)"""
+    ref = (entry.get('when_term') or {}).get(cfgname)
+    if ref is None or s.get('when_term') is None:
+        return False
+    import ast
+    from . import linarith
+    try:
+        return linarith.terms_equal(ast.literal_eval(ref), s['when_term'])
+    except (ValueError, SyntaxError, RecursionError):
+        return False
+
+
 def _fn_of(key):
     # kind:<function path>:<rest>   (function paths contain '::' but the separators are single ':')
     body = key.split(':', 1)[1]
@@ -101,7 +115,8 @@ def check_sites(rep, crate, cfgname, vetted, counts):
             why = sites.discharge(s) if s['kind'] != 'panic' else None
             if why:
                 rep.ok('SITE', key, s['where'], fact + f' is guarded: {why}', fn=b.path)
-            elif s['key'] in vetted and s['kind'] == 'panic' and (vetted[s['key']].get('when') or {}).get(cfgname) not in (None, s.get('when')):
+            elif s['key'] in vetted and s['kind'] == 'panic' and (vetted[s['key']].get('when') or {}).get(cfgname) not in (None, s.get('when')) \
+                    and not _same_condition(vetted[s['key']], s, cfgname):
                 rep.bad('SITE', f"SITE-COND:{s['key']}", s['where'], f"[{cfgname}] the vetted assert now fires when: {s.get('when', '?')[:300]}",
                         'fires when: ' + vetted[s['key']]['when'][cfgname][:300], fn=b.path, direction='assert condition changed',
                         why='a weakened assert lets ill-formed input through to code that relies on it; a strengthened one panics on input that was '
